@@ -6,7 +6,7 @@ Inductive kind := KLogicStep | KConditionalLogicStep | KValueNotEmptyCheck | KVa
 
 Inductive failfact := FSaml (status : bytes) | FSamlLogout (status : bytes) | FHttp (code : Z) | FNone | FUnknown.
 
-Record stepfact := { sk : kind; callees : list string; lits : list string; writes : list string; sf : failfact }.
+Record stepfact := { sk : kind; callees : list string; lits : list string; consts : list string; writes : list string; sf : failfact }.
 
 Inductive stmtkind := SAssign | SIf | SExpr | SReturn | SSwitch | SOther.
 Record stmtfact := { sfk : stmtkind; targets : list string; conds : list string; calls : list string;
